@@ -177,10 +177,10 @@ func VerifLoadFailFile(filename string) (string, uint64, []uint64, error) {
 }
 
 func VerifFailFileName(testName string) (string, string) { return failFileName(testName) }
-func VerifFailFilePattern(testName string) string         { return failFilePattern(testName) }
-func VerifVersion() string                                { return rapidVersion }
-func VerifSafeFilename(s string) string                   { return kindaSafeFilename(s) }
-func VerifBaseSeed() uint64                               { return baseSeed() }
+func VerifFailFilePattern(testName string) string        { return failFilePattern(testName) }
+func VerifVersion() string                               { return rapidVersion }
+func VerifSafeFilename(s string) string                  { return kindaSafeFilename(s) }
+func VerifBaseSeed() uint64                              { return baseSeed() }
 
 // VerifResetCaches forgets everything the process-wide regexp/rune-table
 // caches have learned, so that first use can be observed again.
